@@ -28,3 +28,11 @@ package pool
 //@ func ReleaseTimer
 //@   nobody
 //@   log ReleaseTimer
+
+// PackBuffer: the packed message in a pooled buffer of exactly its length.
+//@ func PackBuffer [C14]
+//@   log poolPackBuffer
+//@   requires m != nil
+//@   ensures (result_1 == nil) == (result_0 != nil)
+//@   ensures result_1 == nil ==> fresh(result_0) && fresh((*result_0).ref) && len(*result_0) >= 12
+//@   ensures result_1 == nil ==> len(*result_0) == len(ret(PackBuffer, 0, 0)) && (forall i int :: 0 <= i && i < len(*result_0) ==> (*result_0)[i] == aftercall(PackBuffer, 0, ret(PackBuffer, 0, 0)[i]))
